@@ -141,10 +141,10 @@ SlowAlloc(chs, c, b, sz, al, m, fail) ==
                      chunks |-> <<[c1 EXCEPT !.pos = PosAfter(c1, sz, al, m)]>>]
     ELSE LET w == WalkAlloc(chs, c + 1, sz, al, m)
          IN IF w.found THEN [ok |-> TRUE, base |-> b, cur |-> w.cur, addr |-> w.addr, chunks |-> w.chunks]
-            ELSE \* append a chunk to the last one; the current chunk has already advanced to it
+            ELSE \* append a chunk to the last one (when that fails, the later chunks stay reset but the current chunk is restored)
                  LET lastc == w.chunks[Len(w.chunks)]
                      req   == CS!AppendSize(CC, cfg.mcs, lastc.size, sz, al)
-                 IN IF req = CS!NoneV \/ ~CS!LayoutOk(CC, req) \/ fail THEN ErrRes(w.chunks, w.cur, b)
+                 IN IF req = CS!NoneV \/ ~CS!LayoutOk(CC, req) \/ fail THEN ErrRes(w.chunks, c, b)   \* the current chunk is restored
                     ELSE LET mk == MkChunk(b, req)
                              c1 == mk.c
                          IN [ok |-> TRUE, base |-> mk.b, cur |-> Len(w.chunks) + 1, addr |-> PtrIn(c1, sz, al, m),
@@ -322,7 +322,7 @@ Exp(res, addr, extra) ==
      nchunks |-> Len(chunks'), live |-> DOMAIN blocks', ma |-> ma', x |-> extra,
      fails |-> fails',                                                       \* injected failures so far
      nparts |-> Cardinality(parts'),                                         \* live split-off parts
-     inaligned |-> \E i \in 1..Len(frames') : frames'[i].kind \in {"aligned", "saligned"},
+     inaligned |-> \E i \in 1..Len(frames') : frames'[i].kind \in {"aligned", "saligned", "bmws"},
      inclaim |-> \E i \in 1..Len(frames') : frames'[i].kind = "claim",
      inprep |-> Len(frames') > 0 /\ frames'[Len(frames')].kind = "prep"]
 
@@ -331,7 +331,7 @@ ExpS(res, addr, extra, chs, c, liveset, frs, nparts) ==
     [res |-> res, addr |-> addr, cur |-> c, pos |-> IF c = 0 THEN 0 ELSE chs[c].pos,
      allocated |-> StatAllocated(chs, c), count |-> StatCount(chs, c), nchunks |-> Len(chs), live |-> liveset, ma |-> ma,
      x |-> extra, fails |-> fails, nparts |-> nparts,
-     inaligned |-> \E i \in 1..Len(frs) : frs[i].kind \in {"aligned", "saligned"},
+     inaligned |-> \E i \in 1..Len(frs) : frs[i].kind \in {"aligned", "saligned", "bmws"},
      inclaim |-> \E i \in 1..Len(frs) : frs[i].kind = "claim",
      inprep |-> FALSE]
 
@@ -360,7 +360,7 @@ InitWith(c, k) ==
                 mk  == MkChunk([next |-> 65536, grants |-> <<>>], req)
             IN /\ req # CS!NoneV
                /\ base = mk.b /\ chunks = <<mk.c>> /\ cur = 1
-    /\ hist = <<[a |-> "ctor", args |-> k,
+    /\ hist = <<[a |-> "ctor", args |-> k, cfg0 |-> c,     \* (the configuration may change later: Bump::with_settings)
                  exp |-> [res |-> "ok", addr |-> 0, cur |-> cur, pos |-> IF cur = 0 THEN 0 ELSE chunks[cur].pos,
                           allocated |-> 0, count |-> StatCount(chunks, cur), nchunks |-> Len(chunks), live |-> {},
                           ma |-> ma, x |-> NoX, fails |-> 0, nparts |-> 0, inaligned |-> FALSE, inclaim |-> FALSE, inprep |-> FALSE]]>>
@@ -467,7 +467,9 @@ Dealloc(id, wrap) ==
            reclaims == ~WD(wrap) /\ cfg.dealloc /\ IsLast(chunks, cur, b.addr, b.sz)
        IN \* C13 (design level): the most recent allocation of a size that is a multiple of the minimum alignment is reclaimed;
           \* a block that is not the most recent live allocation is never reclaimed
-          /\ Assert((last = id /\ b.sz % ma = 0 /\ cfg.dealloc /\ ~WD(wrap)) => reclaims, "C13: most recent allocation not reclaimed")
+          \* (a block returned by an allocation call starts at a multiple of the minimum alignment in force; the T inside the Result
+          \*  of alloc_try_with, split-off parts and blocks allocated under a lower minimum alignment need not)
+          /\ Assert((last = id /\ b.sz % ma = 0 /\ b.addr % ma = 0 /\ cfg.dealloc /\ ~WD(wrap)) => reclaims, "C13: most recent allocation not reclaimed")
           /\ Assert(reclaims /\ b.sz > 0 => Top(order) = id, "C13: a block that is not the most recent live allocation was reclaimed")
           /\ chunks' = DoDealloc(chunks, cur, b.addr, b.sz, ma, WD(wrap))
           /\ blocks' = Restrict(blocks, LiveIds \ {id})
@@ -485,7 +487,7 @@ Grow(id, l, zeroed, wrap, fail) ==
        /\ l.sz >= b.sz
        /\ fail => (CanFail /\ GrowNeedsBase(chunks, cur, b.addr, b.sz, l.sz, l.al, ma))
        /\ LET r == DoGrow(chunks, cur, base, b.addr, b.sz, l.sz, l.al, ma, fail)
-          IN /\ Assert((last = id /\ cfg.up /\ b.sz % ma = 0 /\ b.addr % l.al = 0 /\ l.sz <= chunks[cur].hi - b.addr) => (r.ok /\ r.addr = b.addr),
+          IN /\ Assert((last = id /\ cfg.up /\ b.sz % ma = 0 /\ b.addr % ma = 0 /\ b.addr % l.al = 0 /\ l.sz <= chunks[cur].hi - b.addr) => (r.ok /\ r.addr = b.addr),
                        "C13: growing the most recent allocation with room did not happen in place")
              /\ chunks' = r.chunks /\ cur' = r.cur /\ base' = r.base
              /\ blocks' = IF r.ok THEN [blocks EXCEPT ![id] = [addr |-> r.addr, sz |-> l.sz, al |-> l.al]] ELSE blocks
@@ -668,7 +670,7 @@ DoPrep(chs, c, b, sz, al, fail) ==
             ELSE LET lastc == w.chunks[Len(w.chunks)]
                      req   == CS!AppendSize(CC, cfg.mcs, lastc.size, sz, al)
                  IN IF req = CS!NoneV \/ ~CS!LayoutOk(CC, req) \/ fail
-                    THEN [ok |-> FALSE, chunks |-> w.chunks, cur |-> w.cur, base |-> b, lo |-> 0, hi |-> 0]
+                    THEN [ok |-> FALSE, chunks |-> w.chunks, cur |-> c, base |-> b, lo |-> 0, hi |-> 0]   \* the current chunk is restored
                     ELSE LET mk == MkChunk(b, req)
                          IN [ok |-> TRUE, chunks |-> Append(w.chunks, mk.c), cur |-> Len(w.chunks) + 1, base |-> mk.b,
                              lo |-> PLo(mk.c, al), hi |-> PHi(mk.c, al)]
@@ -718,6 +720,25 @@ PrepPush(fail) ==
                         Exp(IF r.ok THEN "ok" ELSE "err", 0,
                             [cap |-> cap2, lo |-> r.lo, hi |-> r.hi, len |-> IF r.ok THEN f.len + 1 ELSE f.len,
                              newchunk |-> Len(r.chunks) > Len(chunks)]))
+
+\* try_reserve(additional): grows (amortised: max(2 cap, len + additional, min_non_zero_cap)) when the spare capacity is
+\* smaller than `additional`
+PrepReserve(additional, fail) ==
+    /\ Active /\ InPrep /\ ~frames[Depth].failed /\ additional > 0
+    /\ LET f == frames[Depth]
+           grows == f.cap - f.len < additional
+           ncap  == Max(Max(2 * f.cap, f.len + additional), MinNonZeroCap(f.esz))
+       IN /\ fail => (CanFail /\ grows /\ PrepNeedsBase(chunks, cur, ncap * f.esz, f.eal))
+          /\ LET r == IF grows THEN DoPrep(chunks, cur, base, ncap * f.esz, f.eal, fail)
+                       ELSE [ok |-> TRUE, chunks |-> chunks, cur |-> cur, base |-> base, lo |-> f.lo, hi |-> f.hi]
+                 cap2 == IF r.ok THEN (r.hi - r.lo) \div f.esz ELSE f.cap
+             IN /\ chunks' = r.chunks /\ cur' = r.cur /\ base' = r.base
+                /\ frames' = [frames EXCEPT ![Depth] = IF r.ok THEN [f EXCEPT !.lo = r.lo, !.hi = r.hi, !.cap = cap2] ELSE f]
+                /\ fails' = IF fail THEN fails + 1 ELSE fails
+                /\ UNCHANGED <<cfg, ma, blocks, cps, nextId, order, parts, last, dropped>>
+                /\ Step("prep_reserve", [n |-> additional, fail |-> fail, grows |-> grows, ncap |-> ncap],
+                        Exp(IF r.ok THEN "ok" ELSE "err", 0,
+                            [cap |-> cap2, lo |-> r.lo, hi |-> r.hi, len |-> f.len, newchunk |-> Len(r.chunks) > Len(chunks)]))
 
 \* into_slice / into_boxed_slice: the elements are moved to the bump side of the prepared range, the position is set
 \* just past them (aligned to the minimum alignment only if the element alignment is smaller)
@@ -863,7 +884,7 @@ Realloc(id, wrap) ==
     /\ LET b    == blocks[id]
            chs1 == DoDealloc(chunks, cur, b.addr, b.sz, ma, WD(wrap))
            r    == DoAlloc(chs1, cur, base, b.sz, b.al, ma, FALSE)
-           antecedent == last = id /\ b.sz % ma = 0 /\ cfg.dealloc /\ ~WD(wrap)
+           antecedent == last = id /\ b.sz % ma = 0 /\ b.addr % ma = 0 /\ cfg.dealloc /\ ~WD(wrap)
        IN /\ ~NeedsBase(chs1, cur, b.sz, b.al, ma)
           /\ r.ok
           /\ Assert(antecedent => r.addr = b.addr, "C13: deallocate + same request does not return the same address")
@@ -878,7 +899,7 @@ Realloc(id, wrap) ==
                  exp |-> [res |-> "ok", addr |-> 0, cur |-> cur, pos |-> IF cur = 0 THEN 0 ELSE chs1[cur].pos,
                           allocated |-> StatAllocated(chs1, cur), count |-> StatCount(chs1, cur), nchunks |-> Len(chs1),
                           live |-> LiveIds \ {id}, ma |-> ma, fails |-> fails, nparts |-> Cardinality(parts \ {id}),
-                          inaligned |-> \E i \in 1..Len(frames) : frames[i].kind \in {"aligned", "saligned"},
+                          inaligned |-> \E i \in 1..Len(frames) : frames[i].kind \in {"aligned", "saligned", "bmws"},
                           inclaim |-> \E i \in 1..Len(frames) : frames[i].kind = "claim", inprep |-> FALSE,
                           x |-> [waslast |-> last = id, wastop |-> Top(order) = id,
                                  reclaim |-> ~WD(wrap) /\ cfg.dealloc /\ IsLast(chunks, cur, b.addr, b.sz),
@@ -946,10 +967,43 @@ EnterAligned(n, scoped) ==
     /\ UNCHANGED <<cfg, base, cur, blocks, nextId, order, parts, fails, dropped>>
     /\ Step("enter", [kind |-> IF scoped THEN "saligned" ELSE "aligned", n |-> n], Exp("ok", 0, NoX))
 
+\* borrow_mut_with_settings::<NewS>() with a higher minimum alignment (lowering is rejected at compile time): the position
+\* is aligned like for aligned::<N>; nothing is undone when the borrow ends
+EnterBmws(n) ==
+    /\ Active /\ Free /\ Depth < MaxDepth /\ n \in {2, 4, 8, 16} /\ n > ma
+    /\ frames' = Append(frames, [kind |-> "bmws", cp |-> Checkpoint, live |-> LiveIds, ma |-> ma, cps |-> cps,
+                                  alloc0 |-> StatAllocated(chunks, cur)])
+    /\ cps' = <<>>
+    /\ ma' = n
+    /\ chunks' = IF cur # 0 THEN [chunks EXCEPT ![cur].pos = AlignPos(@, n)] ELSE chunks
+    /\ last' = 0
+    /\ UNCHANGED <<cfg, base, cur, blocks, nextId, order, parts, fails, dropped>>
+    /\ Step("enter", [kind |-> "bmws", n |-> n], Exp("ok", 0, NoX))
+
+\* Bump::with_settings::<NewS>() (by value; only outside every frame): changes MIN_ALIGN and / or GUARANTEED_ALLOCATED.
+\* Requires an allocated arena when NewS is guaranteed-allocated: otherwise it panics and the Bump, which was moved into
+\* the call, is dropped by the unwinding.  Raising the alignment aligns the position, lowering needs nothing.
+WithSettings(n, g) ==
+    /\ Active /\ Free /\ Depth = 0 /\ n \in {1, 2, 4, 8, 16}
+    /\ (n # cfg.ma \/ g # cfg.ga)
+    /\ IF g /\ cur = 0
+       THEN /\ dropped' = TRUE
+            /\ blocks' = <<>> /\ cps' = <<>> /\ last' = 0 /\ order' = <<>> /\ parts' = {}
+            /\ UNCHANGED <<cfg, base, chunks, cur, ma, frames, nextId, fails>>
+            /\ Step("with_settings", [ma |-> n, ga |-> g],
+                    [res |-> "panic", addr |-> 0, cur |-> 0, pos |-> 0, allocated |-> 0, count |-> 0, nchunks |-> 0, live |-> {},
+                     ma |-> ma, x |-> NoX, fails |-> fails, nparts |-> 0, inaligned |-> FALSE, inclaim |-> FALSE, inprep |-> FALSE])
+       ELSE /\ cfg' = [cfg EXCEPT !.ma = n, !.ga = g]
+            /\ ma' = n
+            /\ chunks' = IF n > ma /\ cur # 0 THEN [chunks EXCEPT ![cur].pos = AlignPos(@, n)] ELSE chunks
+            /\ cps' = <<>> /\ last' = 0
+            /\ UNCHANGED <<base, cur, frames, blocks, nextId, order, parts, fails, dropped>>
+            /\ Step("with_settings", [ma |-> n, ga |-> g], Exp("ok", 0, NoX))
+
 ExitAligned(how) ==
     /\ Active /\ Free /\ Depth > 0
     /\ LET f == frames[Depth] IN
-       /\ f.kind \in {"aligned", "saligned"}
+       /\ f.kind \in {"aligned", "saligned", "bmws"}
        /\ IF f.kind = "saligned"
           THEN LET r == ResetToCp(chunks, f.cp)
                IN /\ Assert(StatAllocated(r.chunks, r.cur) = f.alloc0, "C18/C03: scoped_aligned does not restore the entry position")
